@@ -18,6 +18,7 @@
 //
 //	       tseq | tpipe: the script runs INSIDE a CONNECT tunnel through the MITM-enabled proxy after a TLS handshake
 //	       (origins speak TLS); hseq | hpipe: inside such a tunnel in plain HTTP (the proxy's non-TLS branch)
+//	       lseq | lpipe: through a plain proxy whose modifier chain starts with the body-snapshotting HAR logger
 //	modes: seq | pipe through the plain proxy; mseq | mpipe through the MITM-enabled one; sseq | spipe through a plain
 //	proxy with SetTimeout(1.5 s)
 //
@@ -34,6 +35,7 @@ import (
 	"bufio"
 	"bytes"
 	"crypto/tls"
+	"crypto/x509"
 	"fmt"
 	"io"
 	"net"
@@ -48,6 +50,9 @@ import (
 	"time"
 
 	martian "github.com/google/martian/v3"
+	"github.com/google/martian/v3/fifo"
+	"github.com/google/martian/v3/h2"
+	"github.com/google/martian/v3/har"
 	mlog "github.com/google/martian/v3/log"
 	"github.com/google/martian/v3/mitm"
 	"verifharness/hx"
@@ -63,7 +68,7 @@ func (stamp) ModifyResponse(res *http.Response) error {
 	return nil
 }
 
-func proxyChild(withMITM, short, longTimeout bool) {
+func proxyChild(withMITM, short, longTimeout, withH2, withLogger bool) {
 	mlog.SetLevel(mlog.Silent)
 	l, err := net.Listen("tcp", "127.0.0.1:0")
 	if err != nil {
@@ -112,6 +117,18 @@ func proxyChild(withMITM, short, longTimeout bool) {
 			fmt.Println("ERR", err)
 			os.Exit(3)
 		}
+		if withH2 {
+			// ALPN h2 inside a MITM'd tunnel is handed to h2.Config.Proxy, which
+			// dials the origin itself (tls.Dial, not the proxy's dialer) and
+			// trusts only the certificate the harness names
+			pool := x509.NewCertPool()
+			if pemf := os.Getenv("VERIF_C03_ORIGIN_CA"); pemf != "" {
+				if b, err := os.ReadFile(pemf); err == nil {
+					pool.AppendCertsFromPEM(b)
+				}
+			}
+			mc.SetH2Config(&h2.Config{AllowedHostsFilter: func(string) bool { return true }, RootCAs: pool})
+		}
 		p.SetMITM(mc)
 		if !longTimeout {
 			p.SetTimeout(mitmTimeout)
@@ -124,6 +141,17 @@ func proxyChild(withMITM, short, longTimeout bool) {
 	}
 	if short {
 		p.SetTimeout(shortTimeout)
+	}
+	if withLogger {
+		// a modifier that snapshots every body (the HAR logger) behind the
+		// stamping modifier: reading the body early must not change what
+		// the client gets when the origin's body ends early
+		logger := har.NewLogger()
+		grp := fifo.NewGroup()
+		grp.AddResponseModifier(stamp{})
+		grp.AddResponseModifier(logger)
+		p.SetRequestModifier(logger)
+		p.SetResponseModifier(grp)
 	}
 	fmt.Println("ADDR", l.Addr().String())
 	go func() { // exit when the parent goes away
@@ -154,6 +182,13 @@ var mitmChild = &child{kind: "proxy-child-mitm"}
 // and so hide exactly what is being looked for
 var mitmLongChild = &child{kind: "proxy-child-mitml"}
 
+// MITM-enabled with an h2.Config: a client that negotiates ALPN h2 inside the
+// tunnel is handed to h2.Config.Proxy (3 s timeout like the MITM child)
+var h2Child = &child{kind: "proxy-child-h2"}
+
+// a plain proxy whose response modifier chain begins with a body-snapshotting logger
+var harChild = &child{kind: "proxy-child-har"}
+
 // a plain proxy with a short per-request timeout, for connections that live
 // longer than it although no single exchange comes near it
 var shortChild = &child{kind: "proxy-child-short"}
@@ -173,7 +208,7 @@ func childFor(m bool) *child {
 
 func (c *child) start() error {
 	cmd := exec.Command(os.Args[0], "-extra", c.kind)
-	cmd.Env = append(os.Environ(), "GOTRACEBACK=single")
+	cmd.Env = append(os.Environ(), "GOTRACEBACK=single", "VERIF_C03_ORIGIN_CA="+originCAFile)
 	in, _ := cmd.StdinPipe()
 	out, _ := cmd.StdoutPipe()
 	errb := &bytes.Buffer{}
@@ -413,8 +448,10 @@ func parseExch(t string) (*exch, error) {
 }
 
 // deadAddr is an address that refuses connections: a bound socket that never listens.
-// originTLS: the certificate of the origins behind decrypted tunnels
-var originTLS *tls.Config
+// originTLS: the certificate of the origins behind decrypted tunnels (the h2
+// child trusts it); originTLSUntrusted: one that nobody trusts
+var originTLS, originTLSUntrusted *tls.Config
+var originCAFile string
 
 var deadAddr string
 
@@ -498,6 +535,8 @@ func fmtResp(m *p1x.Msg) string {
 		st = "err-" + m.Err
 	} else if !m.Complete {
 		st = "incomplete"
+	} else if m.Stray > 0 {
+		st = "err-stray-crlf-before-status-line"
 	}
 	xex := strings.Join(p1x.Vals(m.Hdrs, "X-Ex"), ".")
 	if xex == "" {
@@ -536,6 +575,8 @@ func runUF(in []string) (out []string) {
 		carrier, ch, mode = mode[:1], mitmLongChild, mode[1:]
 	} else if strings.HasPrefix(mode, "m") { // mseq / mpipe: through the MITM-enabled proxy
 		ch, mode = mitmLongChild, mode[1:]
+	} else if mode == "lseq" || mode == "lpipe" { // through the proxy with the HAR logger in its modifier chain
+		ch, mode = harChild, mode[1:]
 	} else if mode == "sseq" || mode == "spipe" { // through the proxy with the short timeout
 		ch, mode = shortChild, mode[1:]
 	}
@@ -814,13 +855,18 @@ func runMAL(in []string) (out []string) {
 
 // runCST: a client stream built around a CONNECT.
 //
-//	CST <p|m> <step>*     p: plain proxy, m: MITM-enabled proxy
+//	CST <p|m|g> <step>*   p: plain proxy, m: MITM-enabled proxy, g: MITM-enabled with an h2.Config
+//	       connect-dead / connect-tls / connect-tlsu: CONNECT for a port that refuses / a TLS origin with a certificate the
+//	       h2 proxy trusts / does not trust; tlsh2: TLS handshake offering ALPN h2
 //	steps: connect (send CONNECT for the origin, read the answer) | close | half (shutdown of the write side) |
 //	       wait<ms> | raw:<hex> | tls (client handshake, certificate not verified) | tlsraw:<hex> | read (until idle / EOF)
 //
 // OUT: cst:<what was seen, step by step>  then DEAD:… or ALIVE / UNRESPONSIVE from a probe on a fresh connection.
 func runCST(in []string) (out []string) {
 	ch := childFor(in[1] == "m")
+	if in[1] == "g" {
+		ch = h2Child
+	}
 	origin, err := p1x.NewOrigin(false, nil)
 	if err != nil {
 		return []string{"ENV:listen"}
@@ -860,8 +906,29 @@ func runCST(in []string) (out []string) {
 		}
 		c.SetWriteDeadline(time.Now().Add(5 * time.Second))
 		switch {
-		case st == "connect":
-			fmt.Fprintf(conn, "CONNECT %s HTTP/1.1\r\nHost: %s\r\n\r\n", origin.Addr, origin.Addr)
+		case st == "connect" || strings.HasPrefix(st, "connect-"):
+			// the CONNECT target: the plain origin, a port that refuses, or a TLS
+			// origin whose certificate the h2 child trusts / does not trust
+			target := origin.Addr
+			switch st {
+			case "connect-dead":
+				target = deadAddr
+			case "connect-tls", "connect-tlsu":
+				o2, err := p1x.NewOrigin(false, nil)
+				if err != nil {
+					return []string{"ENV:listen"}
+				}
+				defer o2.Close()
+				o2.TLS = originTLS
+				if st == "connect-tlsu" {
+					o2.TLS = originTLSUntrusted
+				}
+				o2.SetHandler(func(idx int, m *p1x.Msg) p1x.Action {
+					return p1x.Action{Bytes: []byte("HTTP/1.1 200 OK\r\nContent-Length: 3\r\nConnection: close\r\n\r\ntls"), Close: true}
+				})
+				target = o2.Addr
+			}
+			fmt.Fprintf(conn, "CONNECT %s HTTP/1.1\r\nHost: %s\r\n\r\n", target, target)
 			conn.SetReadDeadline(time.Now().Add(idleNow()))
 			m := p1x.ReadResponse(br, "CONNECT", true)
 			if m == nil {
@@ -887,13 +954,17 @@ func runCST(in []string) (out []string) {
 		case strings.HasPrefix(st, "raw:"):
 			b, _ := hx.UnHex("x" + st[4:])
 			conn.Write(b)
-		case st == "tls":
-			tc := tls.Client(&bufConn{Conn: conn, r: br}, &tls.Config{InsecureSkipVerify: true, ServerName: "verif.invalid"})
+		case st == "tls" || st == "tlsh2":
+			cfg := &tls.Config{InsecureSkipVerify: true, ServerName: "verif.invalid"}
+			if st == "tlsh2" {
+				cfg.NextProtos = []string{"h2"}
+			}
+			tc := tls.Client(&bufConn{Conn: conn, r: br}, cfg)
 			tc.SetDeadline(time.Now().Add(1500 * time.Millisecond))
 			if err := tc.Handshake(); err != nil {
 				seen = append(seen, "tls-failed")
 			} else {
-				seen = append(seen, "tls-ok")
+				seen = append(seen, "tls-ok"+tc.ConnectionState().NegotiatedProtocol)
 				c = tc
 			}
 		case strings.HasPrefix(st, "tlsraw:"):
@@ -987,7 +1058,7 @@ func main() {
 	for i, a := range os.Args {
 		if a == "-extra" && i+1 < len(os.Args) && strings.HasPrefix(os.Args[i+1], "proxy-child") {
 			k := os.Args[i+1]
-			proxyChild(k == "proxy-child-mitm" || k == "proxy-child-mitml", k == "proxy-child-short", k == "proxy-child-mitml")
+			proxyChild(k == "proxy-child-mitm" || k == "proxy-child-mitml" || k == "proxy-child-h2", k == "proxy-child-short", k == "proxy-child-mitml", k == "proxy-child-h2", k == "proxy-child-har")
 			return
 		}
 	}
@@ -996,6 +1067,13 @@ func main() {
 	makeDead()
 	if c, err := p1x.SelfSigned(); err == nil {
 		originTLS = c
+		originTLSUntrusted, _ = p1x.SelfSigned()
+		if f, err := os.CreateTemp("", "verif-c03-ca-*.pem"); err == nil {
+			f.Write(p1x.CertPEM(c))
+			f.Close()
+			originCAFile = f.Name()
+			defer os.Remove(originCAFile)
+		}
 	} else {
 		fmt.Fprintln(os.Stderr, "cannot make an origin certificate:", err)
 		os.Exit(2)
@@ -1010,6 +1088,8 @@ func main() {
 	defer mitmChild.stop()
 	defer shortChild.stop()
 	defer mitmLongChild.stop()
+	defer h2Child.stop()
+	defer harChild.stop()
 	var cases []hx.Case
 	pre, replayOnly := cfg.Inputs()
 	cases = append(cases, pre...)
@@ -1058,6 +1138,8 @@ func main() {
 			plainChild.get()
 			mitmChild.get()
 			mitmLongChild.get()
+			h2Child.get()
+			harChild.get()
 			outs[i] = runRobust(cases[i].In)
 			if isDead(i) {
 				culprit[i] = true
